@@ -176,18 +176,20 @@ def make_run(CF, start, seq_len, alphabet_names):
     def run():
         cf, sh = start()
         O = ops(2); names = [n for n, _ in O]
-        bad = invariant(cf, sh, "start"); done = []
+        bad = invariant(cf, sh, "start"); done = []; parents = []
         for step in range(seq_len):
             k = EX.pick(list(range(len(O))))
-            name, f = O[k]
+            name, f = O[k]; before = (cf, sh)
             try: r = f(cf, sh)
             except symcore.PathEnd: raise
             except Exception as e:
                 bad.append("%s raised %s: %s after %s" % (name, type(e).__name__, str(e)[:80], done)); done.append(name); break
             if r is None: done.append(name + "(n/a)"); continue
             cf, sh, extra = r; done.append(name)
+            if cf is not before[0]: parents.append(before + (list(done),))        # copy / copyrows: the original must stay untouched by whatever happens to the copy
             bad += ["after %s: %s" % (done, x) for x in extra]
             bad += invariant(cf, sh, "after %s" % done)
+            for pcf, psh, when in parents: bad += invariant(pcf, psh, "the original of the copy made by %s, after %s on the copy" % (when[-1], done[len(when):]))
             if bad: break
         return dict(bad=bad, seq=done)
     return run
@@ -207,7 +209,7 @@ def replay(seq, CF, sname="dict 2x2"):
         else:
             cols = {"c0": np.array([3.0, 1.0, 2.0])} if sname == "dict 1x3" else {"c0": np.array([3.0, 1.0, 2.0]), "c1": np.array([10.0, 30.0, 20.0])}
             cf = CF.colfile_from_dict({k: v.copy() for k, v in cols.items()}); sh = Shadow(list(cols), [list(v) for v in cols.values()])
-        O = dict(ops(3)); done = []
+        O = dict(ops(3)); done = []; parents = []
         def probe(cf, where):
             """write through the item view and look through the attribute view"""
             for t in cf.titles:
@@ -229,10 +231,12 @@ def replay(seq, CF, sname="dict 2x2"):
                 try: r = O[name](cf, sh)
                 except Exception as e: return "%s raised %s: %s after %s" % (name, type(e).__name__, e, done)
                 if r is None: done.append(name); continue
-                cf, sh, extra = r
+                old = (cf, sh); cf, sh, extra = r
+                if cf is not old[0]: parents.append(old + (name,))
                 if extra: return "after %s: %s" % (done + [name], extra[0])
             done.append(name)
             bad = invariant(cf, sh, "after %s" % done)
+            for pcf, psh, when in parents: bad += invariant(pcf, psh, "the original of the copy made by %s, after %s" % (when, done))
             if bad: return bad[0]
             p = probe(cf, "after %s" % done)
             if p: return p
